@@ -43,7 +43,8 @@ void *xmalloc(size_t size)
 void *xrealloc(void *ptr, size_t size)
 {
   register void *value = realloc (ptr, size);
-  if (value == 0){
+  /* realloc(ptr, 0) may release ptr and return NULL: that is not an allocation failure */
+  if (value == 0 && size != 0){
     fprintf(stderr, "[Libscientific] Memory Exhausted!\n");
     abort();
   }
